@@ -19,6 +19,16 @@ pub struct C01 {
 	/// a refresh before their creating transaction confirms marks them Spent and the
 	/// repair scan then frees them (known finding, same family as C05's)
 	spent_unconfirmed: std::collections::BTreeSet<(usize, String)>,
+	/// wallets whose books may legitimately differ from the chain: a fork happened and
+	/// the wallet has not completed a full scan since (re-organisations are repaired by a
+	/// scan, C04/C16/C18). Their selections are judged against the wallet's own records
+	/// as the refresh inside the call left them, not against the node's unspent set.
+	reorged: std::collections::BTreeSet<usize>,
+	cancelled_posted: std::collections::BTreeSet<uuid::Uuid>,
+	/// scripted steps waiting to be issued (LIFO)
+	queue: Vec<Step>,
+	/// scripted "send while holding a Reverted output" sequences left in this run
+	rev_probes_left: u32,
 	/// coinbase candidates to leave unmined in this run
 	candidates_left: u32,
 	tiny_change_left: u32,
@@ -47,6 +57,15 @@ impl C01 {
 				*f += run.rng.below(6) as u32;
 			}
 		}
+		// swarm: re-organisations and scans, so that the output set also holds Reverted
+		// records (and records a fork removed that the wallet has not looked at yet)
+		let mut rev_probes_left = 0;
+		if run.rng.chance(1, 4) {
+			cfg.w_fork = 1 + run.rng.below(3) as u32;
+			cfg.w_scan = 2 + run.rng.below(3) as u32;
+			cfg.avoid_spend_unconfirmed = false;
+			rev_probes_left = 1 + run.rng.below(2) as u32;
+		}
 		let gen = HistGen::new(cfg, run);
 		C01 {
 			gen,
@@ -54,8 +73,35 @@ impl C01 {
 			ctx_existed: false,
 			late: None,
 			spent_unconfirmed: Default::default(),
+			reorged: Default::default(),
+			cancelled_posted: Default::default(),
+			queue: vec![],
+			rev_probes_left,
 			candidates_left: run.rng.below(3) as u32,
 			tiny_change_left: run.rng.below(3) as u32,
+		}
+	}
+
+	/// eligibility of a selected input by the wallet's own record of it
+	fn judge_by_books(rec: Option<&grin_wallet_libwallet::OutputData>, tip: u64, min_conf: u64) -> Option<(String, String)> {
+		let r = match rec {
+			Some(r) => r,
+			None => return Some(("unknown_output".into(), "is not recorded".into())),
+		};
+		match r.status {
+			OutputStatus::Unspent => {
+				if r.lock_height > tip {
+					return Some(("immature_coinbase".into(), format!("is recorded with lock height {} at tip {}", r.lock_height, tip)));
+				}
+				let confs = if r.height > tip { 0 } else { 1 + tip - r.height };
+				if confs < min_conf {
+					return Some(("too_few_confirmations".into(), format!("is recorded at height {} ({} confirmations, {} requested)", r.height, confs, min_conf)));
+				}
+				None
+			}
+			OutputStatus::Unconfirmed if !r.is_coinbase && min_conf == 0 => None,
+			OutputStatus::Unconfirmed if r.is_coinbase => Some(("unconfirmed_coinbase".into(), "is an unconfirmed coinbase candidate".into())),
+			_ => Some((format!("{}", r.status), format!("is recorded {}", r.status))),
 		}
 	}
 
@@ -197,7 +243,17 @@ impl C01 {
 				));
 				return v;
 			}
+			// a record that was Reverted (or, after a fork, Spent) before the call and is in
+			// the node's unspent set again was re-confirmed by the refresh inside the call:
+			// judged against the chain like any other input below
+			let back_on_chain = {
+				let c = run.ex.world.commit_of(w, rec);
+				truth.iter().any(|t| t.commit == c)
+			};
 			match rec.status {
+				OutputStatus::Reverted | OutputStatus::Spent if back_on_chain => {
+					run.cov.probe("selected_input_was_reconfirmed_by_the_embedded_refresh");
+				}
 				OutputStatus::Locked | OutputStatus::Spent | OutputStatus::Reverted => {
 					v.push(run.viol(
 						"inputs_spendable",
@@ -212,6 +268,23 @@ impl C01 {
 			let t = truth.iter().find(|t| t.commit == c);
 			if rec.status == OutputStatus::Unconfirmed {
 				self.spent_unconfirmed.insert((w, kid.to_hex()));
+			}
+			if self.reorged.contains(&w) {
+				// books of a wallet that has not scanned since a fork: judged as recorded
+				// after the call (the refresh ran before the selection, nothing touched the
+				// selected records after it)
+				run.cov.not_judged("chain_truth_of_inputs_after_unscanned_reorg");
+				let post = run.ex.world.snap(w);
+				let now = post.outputs.iter().find(|o| o.key_id == *kid && o.mmr_index == *mmr);
+				if let Some(e) = Self::judge_by_books(now, tip, args.min_conf) {
+					v.push(run.viol(
+						"inputs_spendable",
+						&format!("input_{}", e.0),
+						format!("wallet {}: selected input {} {} (wallet has not scanned since a fork)", w, kid.to_hex(), e.1),
+					));
+					return v;
+				}
+				continue;
 			}
 			match t {
 				None => {
@@ -464,6 +537,20 @@ impl C01 {
 							_ => {}
 						}
 						let c = run.ex.world.commit_of(w, b);
+						if self.reorged.contains(&w) {
+							// finalize does not refresh: the records before the call are what
+							// the selection saw
+							run.cov.not_judged("chain_truth_of_inputs_after_unscanned_reorg");
+							if let Some(e) = Self::judge_by_books(Some(b), tip, args.min_conf) {
+								v.push(run.viol(
+									"inputs_spendable",
+									&format!("input_{}", e.0),
+									format!("wallet {}: late lock selected input {} {} (wallet has not scanned since a fork)", w, o.key_id.to_hex(), e.1),
+								));
+								return v;
+							}
+							continue;
+						}
 						match truth.iter().find(|t| t.commit == c) {
 							None => {
 								if b.status == OutputStatus::Unconfirmed && b.is_coinbase {
@@ -647,6 +734,63 @@ impl Prop for C01 {
 		}
 	}
 	fn next(&mut self, run: &mut Run) -> Option<Step> {
+		if let Some(mut s) = self.queue.pop() {
+			// the scripted send asks for more than the wallet can spend without the
+			// Reverted output (and no more than with it)
+			if let Op::InitSend { w, args } = &mut s.op {
+				if *w < run.ex.world.wallets.len() && run.ex.world.is_open(*w) {
+					let snap = run.ex.world.snap(*w);
+					if let Some(acct) = snap.acct_path(&snap.active) {
+						let rev: u64 = snap
+							.outputs
+							.iter()
+							.filter(|o| o.root_key_id == acct && o.status == OutputStatus::Reverted)
+							.map(|o| o.value)
+							.sum();
+						if rev > 0 {
+							let sp = HistGen::spendable(run, *w);
+							args.amount = sp + rev / 2 + run.rng.below(1000);
+							run.cov.probe("send_attempted_while_holding_a_reverted_output");
+						}
+					}
+				}
+			}
+			return Some(s);
+		}
+		if self.gen.setup_done && self.rev_probes_left > 0 && run.rng.chance(1, 6) {
+			// aim a fork at the block of a confirmed incoming payment, let the wallet find
+			// it reverted, then ask it to pay with no confirmations required
+			let tip = run.ex.world.chain.height();
+			let cands: Vec<(usize, u64)> = run
+				.model
+				.deals
+				.iter()
+				.filter(|d| d.mined.is_some() && d.payee.is_some() && d.payee != d.payer)
+				.map(|d| (d.payee.unwrap(), d.mined.unwrap()))
+				.collect();
+			if !cands.is_empty() && !run.ex.world.chain.is_down() {
+				let (w, h) = *run.rng.pick(&cands);
+				let depth = tip + 1 - h;
+				if depth >= 1 && depth <= 6 && depth < tip && run.ex.world.is_open(w) {
+					self.rev_probes_left -= 1;
+					let mut a = SendArgs::simple(1);
+					a.min_conf = 0;
+					a.max_outputs = 500;
+					a.use_all = run.rng.chance(1, 2);
+					a.num_change = 1 + run.rng.below(2) as u32;
+					a.late_lock = run.rng.chance(1, 4);
+					let mut q = vec![
+						Step::new(Op::Refresh { w }),
+						Step::new(Op::Fork { depth, extra: run.rng.range(1, 2), include: false, readd: false }),
+						Step::new(Op::Scan { w, start: None, del: false }),
+						Step::new(Op::InitSend { w, args: a }),
+					];
+					q.reverse();
+					self.queue = q;
+					return self.queue.pop();
+				}
+			}
+		}
 		if self.gen.setup_done && self.candidates_left > 0 && run.rng.chance(1, 10) {
 			let nw = run.ex.world.wallets.len();
 			if nw > 0 {
@@ -744,6 +888,34 @@ impl Prop for C01 {
 	fn after(&mut self, run: &mut Run, step: &Step, out: &StepOut) -> Vec<Violation> {
 		let mut v = vec![];
 		self.gen.feedback(run, step, out);
+		match &step.op {
+			Op::Fork { .. } if out.ok => {
+				for w in 0..run.ex.world.wallets.len() {
+					self.reorged.insert(w);
+				}
+				run.cov.probe("fork_in_a_selection_history");
+			}
+			Op::Scan { w, start, .. } if out.ok && start.unwrap_or(0) <= 1 => {
+				self.reorged.remove(w);
+			}
+			_ => {}
+		}
+		// the other history the books do not follow without a scan (C04): a transaction
+		// that was cancelled (by hand, by expiry or by a scan asked to drop pending
+		// transactions) although it had been broadcast
+		let mut off_books = vec![];
+		for d in &run.model.deals {
+			if d.cancelled_after_post || (!d.cancelled_by.is_empty() && d.posted) {
+				if !self.cancelled_posted.contains(&d.id) {
+					self.cancelled_posted.insert(d.id);
+					off_books.extend([d.payer, d.payee, Some(d.initiator)].iter().flatten().cloned());
+				}
+			}
+		}
+		for w in off_books {
+			run.cov.probe("broadcast_transaction_cancelled_in_a_selection_history");
+			self.reorged.insert(w);
+		}
 		if let Op::Finalize { w, .. } = &step.op {
 			if let Some((d, pre, nctx, args)) = self.late.take() {
 				if !out.skipped && !out.crashed && run.ex.world.is_open(*w) {
